@@ -28,6 +28,28 @@ var Deadline time.Time
 
 func timeUp() bool { return !Deadline.IsZero() && time.Now().After(Deadline) }
 
+// HarnessDeadline, if set, is the current harness's share of the time budget: a check that runs n harnesses
+// gives harness i the i-th part of what is left, so that one expensive harness cannot starve the ones after it
+// (a harness cut short makes the run non-exhaustive, like the global deadline does).
+var HarnessDeadline time.Time
+
+func fairShare(i, n int) {
+	HarnessDeadline = time.Time{}
+	if Deadline.IsZero() || i >= n {
+		return
+	}
+	if rem := time.Until(Deadline); rem > 0 {
+		HarnessDeadline = time.Now().Add(rem / time.Duration(n-i))
+	}
+}
+
+func effDeadline() time.Time {
+	if !HarnessDeadline.IsZero() && (Deadline.IsZero() || HarnessDeadline.Before(Deadline)) {
+		return HarnessDeadline
+	}
+	return Deadline
+}
+
 type Outcome struct {
 	Key  string            `json:"key"`  // canonical observable outcome of the execution
 	Viol *report.Violation `json:"viol"` // violation found in this execution, if any
@@ -180,8 +202,8 @@ func ExploreAll(r *report.Report, name string, arg interface{}, bound, points in
 func ExploreAllOpt(r *report.Report, name string, arg interface{}, bound, points int, daemonLast bool, noCache bool) *ExploreSummary {
 	ab, _ := json.Marshal(arg)
 	base := exploreArg{Harness: name, Arg: ab, Bound: bound, Points: points, DaemonLast: daemonLast, NoCache: noCache}
-	if !Deadline.IsZero() {
-		base.DeadlineUnix = Deadline.Unix()
+	if dl := effDeadline(); !dl.IsZero() {
+		base.DeadlineUnix = dl.Unix()
 	}
 	sum := &ExploreSummary{Harness: name, Bound: bound, Outcomes: map[string]int64{}}
 	// determinism self-test: the default execution twice
@@ -234,7 +256,13 @@ func ExploreAllOpt(r *report.Report, name string, arg interface{}, bound, points
 		j.Prefix = k
 		jobs = append(jobs, j)
 	}
-	par.Map("explore", jobs, ExploreWorkers, func(i int, res *par.Result) {
+	opts := ExploreWorkers
+	opts.Deadline = effDeadline()
+	par.Map("explore", jobs, opts, func(i int, res *par.Result) {
+		if res.Skipped {
+			sum.Capped = true
+			return
+		}
 		if res.Crashed || res.Err != "" {
 			fatal("harness %s: worker failed on prefix %v: %s %s", name, kids[i], res.Err, tail(res.Stderr, 2000))
 		}
